@@ -145,5 +145,20 @@ check("C04",
                 "deviations (address-order personalities), against a reference model",
       engine="explore", design="3/C04", deadline={"quick": 150, "thorough": 1500})
 
+check("C07",
+      passes=[dict(name="C07", src=["harness/C07.cpp"] + ENV, variant="fast", shards={"quick": 16, "thorough": 16})],
+      rule="ALL sequences of <= 6 (quick) / <= 8 (thorough) declarations over 9 (name,type) pairs (2 identifiers + 1 operator name x 3 "
+           "types) under 4 kind assignments covering var, field, bit-field, alias, type, function, primary and secondary template, each "
+           "on a fresh Lexicon with an address personality chosen by the history; in every final state the scope is compared with the "
+           "plain vector model: elements() order, Product type, lookup of every name (3 declared-or-not + 1 never declared), selection by "
+           "every type, and per declaration category/name/type/master/decl_set; plus all arrangements of <= 5 parameters (x 3^n types), "
+           "enumerators, <= 4 bases, 0..3 handlers: positions, singleton sets, lookup. distinct_nontrivial = histories with a redeclaration.",
+      text="Every declaration history up to the bound is executed on the real scope machinery and the whole scope is "
+           "compared with a vector reference model.",
+      note="Each (name,type) pair is only ever used by one declaration kind, as the property requires; names within one "
+           "parameter/enumerator/base list are pairwise distinct.",
+      technique="exhaustive enumeration of operation histories up to a depth bound on the implementation against a reference model",
+      engine="explore", design="3/C07", deadline={"quick": 150, "thorough": 1500})
+
 # Properties not claimed (with the reason that goes to MANIFEST.not_applicable).
 NOT_CLAIMED = {}
